@@ -91,7 +91,7 @@ theorem revBoard1_better (cx : Ctx) (s : RState) (c : Conn) (hwf : ∀ y js, s.a
 theorem revStep1_cases (cx : Ctx) (s : RState) (c : Conn) :
     revStep cx (fun _ => true) true s c = s ∨
     (revStep cx (fun _ => true) true s c = { s with stop := true } ∧
-      ((s.reached = true ∧ cx.maxAccess ≥ 0 ∧ c.arr < s.tentAccDep - cx.maxAccess) ∨ cx.arrT - c.arr > cx.p.maxTotal)) ∨
+      ((s.reached = true ∧ cx.maxAccess ≥ 0 ∧ c.arr < s.tentAccDep - cx.maxAccess - cx.p.minWait) ∨ cx.arrT - c.arr > cx.p.maxTotal)) ∨
     (s.stop = false ∧
       revStep cx (fun _ => true) true s c =
         { revBoard cx true (revUnboard cx s c) c with count := (revBoard cx true (revUnboard cx s c) c).count + 1 }) := by
@@ -122,7 +122,7 @@ theorem revStep1_cases (cx : Ctx) (s : RState) (c : Conn) :
 
 theorem revStep1_main (cx : Ctx) (s : RState) (c : Conn) (h0 : s.stop = false) (h1 : c.arr ≤ cx.arrT - cx.minEgress)
     (h2 : cx.disabled c.trip = false) (h3 : cx.arrT - c.arr ≤ cx.p.maxTotal)
-    (h3' : ¬ (s.reached = true ∧ cx.maxAccess ≥ 0 ∧ c.arr < s.tentAccDep - cx.maxAccess))
+    (h3' : ¬ (s.reached = true ∧ cx.maxAccess ≥ 0 ∧ c.arr < s.tentAccDep - cx.maxAccess - cx.p.minWait))
     (h4 : (s.exitC c.trip).isSome = true ∨ s.lab c.arrStop ≥ c.arr) :
     revStep cx (fun _ => true) true s c =
       { revBoard cx true (revUnboard cx s c) c with count := (revBoard cx true (revUnboard cx s c) c).count + 1 } := by
@@ -230,7 +230,7 @@ theorem revStep1_acc_src (cx : Ctx) (s : RState) (c : Conn) :
 theorem revStep1_RCθ {cx : Ctx} {L P : List Conn} {s : RState} {c : Conn} {θ : Int} (w : RW cx L)
     (hP : ∀ a ∈ P ++ [c], a ∈ L) (hbefore : ∀ a ∈ P, revLt c a = false)
     (hθ1 : cx.arrT - cx.p.maxTotal ≤ θ)
-    (hθ2 : s.reached = true → cx.maxAccess ≥ 0 → s.tentAccDep - cx.maxAccess ≤ θ)
+    (hθ2 : s.reached = true → cx.maxAccess ≥ 0 → s.tentAccDep - cx.maxAccess - cx.p.minWait ≤ θ)
     (h : RCθ cx θ P s) :
     RCθ cx θ (P ++ [c]) (revStep cx (fun _ => true) true s c) := by
   have hcL : c ∈ L := hP c (by simp)
@@ -467,7 +467,7 @@ theorem revScanList1_RCθ {cx : Ctx} {L : List Conn} (w : RW cx L) (θ : Int) (h
     ∀ (post pre : List Conn) (s : RState), (∀ a ∈ pre ++ post, a ∈ L) → SortedRev (pre ++ post) →
       RCθ cx θ pre s →
       ((post.foldl (revStep cx (fun _ => true) true) s).reached = true → cx.maxAccess ≥ 0 →
-        (post.foldl (revStep cx (fun _ => true) true) s).tentAccDep - cx.maxAccess ≤ θ) →
+        (post.foldl (revStep cx (fun _ => true) true) s).tentAccDep - cx.maxAccess - cx.p.minWait ≤ θ) →
       RCθ cx θ (pre ++ post) (post.foldl (revStep cx (fun _ => true) true) s) := by
   intro post
   induction post with
@@ -475,7 +475,7 @@ theorem revScanList1_RCθ {cx : Ctx} {L : List Conn} (w : RW cx L) (θ : Int) (h
   | cons c rest ih =>
     intro pre s hC hs h hfin
     rw [List.foldl_cons] at hfin ⊢
-    have hθ2 : s.reached = true → cx.maxAccess ≥ 0 → s.tentAccDep - cx.maxAccess ≤ θ := by
+    have hθ2 : s.reached = true → cx.maxAccess ≥ 0 → s.tentAccDep - cx.maxAccess - cx.p.minWait ≤ θ := by
       intro hr hm
       obtain ⟨a, b⟩ := revFold1_frozen cx (c :: rest) s hr
       rw [List.foldl_cons] at a b
